@@ -256,7 +256,7 @@ func c06Gran() []c06Range {
 
 func c06RandCases(tier string) int {
 	if tier == "thorough" {
-		return 1000
+		return 8000
 	}
 	return 20
 }
